@@ -110,7 +110,7 @@ def gen_cfg(rng: random.Random, big_ok: bool):
         nodata = rng.choice([None, None, -1, 0, -128 if dt == "int8" else -9999])
     ovr = rng.choice([None, None, [], [2], [2, 4], [2, 4, 8], [3], [2, 8]])
     api = rng.choice(["to_cog", "write_cog_mem", "file_new", "file_new", "file_exists_overwrite", "file_exists_keep",
-                      "layers_mem", "layers_file", "acc_to_cog", "write_cog_ovrs"])
+                      "layers_mem", "layers_file", "acc_to_cog", "acc_write_cog", "write_cog_ovrs"])
     if api.startswith("layers") or api == "write_cog_ovrs":
         ovr = None
     if ovr:
@@ -212,7 +212,7 @@ def one_case(cfg, workdir, tag):
             f.write(b"pre-existing destination " + os.urandom(64))
         pre_hash = hashlib.sha256(open(path, "rb").read()).hexdigest()
     dst_exists = pre_hash is not None
-    overwrite = api == "file_exists_overwrite" or (api in ("file_new", "layers_file") and cfg["seed"] % 2 == 0)
+    overwrite = api == "file_exists_overwrite" or (api in ("file_new", "layers_file", "acc_write_cog") and cfg["seed"] % 2 == 0)
     is_mem = api in ("to_cog", "write_cog_mem", "layers_mem", "acc_to_cog", "write_cog_ovrs")
     facts["plan_line"] = f"c15 plan {bool_s(is_mem)} {bool_s(dst_exists)} {bool_s(overwrite)}"
 
@@ -233,6 +233,8 @@ def one_case(cfg, workdir, tag):
                 out = RIO.write_cog_layers(layers, ":mem:", **kw)
             elif api == "layers_file":
                 out = RIO.write_cog_layers(layers, path, overwrite=overwrite, **kw)
+            elif api == "acc_write_cog":
+                out = xx.odc.write_cog(path, overwrite=overwrite, **kw)
             else:
                 out = RIO.write_cog(xx, path, overwrite=overwrite, **kw)
         except Exception as e:  # pylint: disable=broad-except
@@ -248,7 +250,8 @@ def one_case(cfg, workdir, tag):
             fails.append(("overwrite-guard-no-error", f"existing destination, overwrite=False: no OSError ({err!r})"))
         if now != pre_hash:
             fails.append(("overwrite-guard-touched-file", "existing destination was modified or removed although overwrite=False"))
-        os.unlink(path)
+        if os.path.exists(path):
+            os.unlink(path)
         return facts, fails
     if err is not None:
         fails.append((f"write-raises:{type(err).__name__}", f"{api} raised {type(err).__name__}: {str(err)[:200]}"))
